@@ -482,6 +482,20 @@ func c19PathAlphabet() []cty.Path {
 	}
 }
 
+// c19CollisionAlphabet: distinct paths whose step texts run together to the same string.
+func c19CollisionAlphabet() []cty.Path {
+	return []cty.Path{
+		cty.GetAttrPath("a").GetAttr("b"),
+		cty.GetAttrPath("ab"),
+		cty.GetAttrPath("a").GetAttr("bc"),
+		cty.GetAttrPath("ab").GetAttr("c"),
+		cty.GetAttrPath("abc"),
+		cty.GetAttrPath("l").IndexInt(0),
+		cty.GetAttrPath("l#"),
+		cty.GetAttrPath("l").IndexString("#"),
+	}
+}
+
 var pathAlgebra = []string{"Union", "Intersection", "Subtract", "SymmetricDifference"}
 
 func (s *pathSys) NumOps() int { return 3*len(s.paths) + 2 + 2*len(pathAlgebra) }
@@ -771,7 +785,58 @@ func c19Pool(thorough bool) []cty.Value {
 		add(cty.TupleVal([]cty.Value{e.Mark(markM1), cty.StringVal("x")}))
 		add(cty.ObjectVal(map[string]cty.Value{"a": e.Mark(markM2), "b": cty.True.Mark(markM1)}))
 	}
+	// path-collision family: members whose paths have the same step texts run together
+	// (.a.b / .ab, .a.bc / .ab.c, .l[0] / ."l#", [0].id.s / [0].ids, [k1].a / [k2].a), every
+	// single member and every pair of non-nested members marked, with equal and with different marks
+	for _, v := range c19CollisionBases() {
+		add(v)
+		var ps []Pos
+		for _, p := range allPositions(v, 4) {
+			if len(p) > 0 && !passesThroughSet(v, p) {
+				ps = append(ps, p)
+			}
+		}
+		for i, pi := range ps {
+			one, ok := replaceAt(v, pi, getAt(v, pi).Mark(markM1))
+			if !ok {
+				continue
+			}
+			add(one)
+			for j := i + 1; j < len(ps); j++ {
+				pj := ps[j]
+				if isPrefixPos(pi, pj) || isPrefixPos(pj, pi) {
+					continue
+				}
+				for _, m := range []string{markM1, markM2} {
+					if two, ok := replaceAt(one, pj, getAt(one, pj).Mark(m)); ok {
+						add(two)
+					}
+				}
+			}
+		}
+	}
 	return out
+}
+
+func c19CollisionBases() []cty.Value {
+	s := cty.StringVal
+	o := cty.ObjectVal
+	m := func(kv ...interface{}) map[string]cty.Value {
+		r := map[string]cty.Value{}
+		for i := 0; i < len(kv); i += 2 {
+			r[kv[i].(string)] = kv[i+1].(cty.Value)
+		}
+		return r
+	}
+	return []cty.Value{
+		o(m("a", o(m("b", s("x"))), "ab", s("y"))),
+		o(m("a", o(m("bc", s("x"))), "ab", o(m("c", s("y"))))),
+		o(m("l", cty.ListVal([]cty.Value{s("y")}), "l#", s("z"), "#", s("w"))),
+		cty.ListVal([]cty.Value{o(m("id", o(m("s", s("x"))), "ids", s("y")))}),
+		cty.MapVal(m("k1", o(m("a", s("x"))), "k2", o(m("a", s("y"))))),
+		cty.TupleVal([]cty.Value{o(m("a", s("x"))), o(m("a", cty.True)), cty.ListVal([]cty.Value{s("p"), s("q")})}),
+		o(m("x", o(m("yz", cty.Zero)), "xy", o(m("z", cty.Zero)), "xyz", cty.Zero)),
+	}
 }
 
 func runC19(c *Ctx) {
@@ -826,6 +891,7 @@ func runC19(c *Ctx) {
 	exploreE2(c, &pathSys{paths: c19PathAlphabet()}, depth, "pathset.")
 	// index steps of one collection (one hash bucket), from the empty set and from sets that
 	// already hold three and four of them
+	exploreE2(c, &pathSys{paths: c19CollisionAlphabet()}, depth-1, "pathset[collide].")
 	exploreE2(c, &pathSys{paths: c19IndexAlphabet()}, depth-1, "pathset[index].")
 	exploreE2(c, &pathSys{paths: c19IndexAlphabet(), initA: []int{0, 2, 3}, initB: []int{4}}, depth-1, "pathset[index/3].")
 	exploreE2(c, &pathSys{paths: c19IndexAlphabet(), initA: []int{1, 2, 3, 4}, initB: []int{0, 5}}, depth-2, "pathset[index/4].")
